@@ -15,6 +15,7 @@ pub broadcast axiom fn ibig_of_v(i: int) ensures (#[trigger] ibig_of(i)).v() == 
 pub broadcast axiom fn ubig_of_v(i: int) requires i >= 0 ensures (#[trigger] ubig_of(i)).v() == i;
 pub broadcast axiom fn ubig_nonneg(u: UBig) ensures #[trigger] u.v() >= 0;
 pub broadcast axiom fn ibig_consts() ensures #![trigger IBig::ZERO.v()] #![trigger IBig::ONE.v()] IBig::ZERO.v() == 0 && IBig::ONE.v() == 1;
+/// functions that use the stubs start with `broadcast use round_int_axioms;`
 pub broadcast group round_int_axioms { ibig_of_v, ubig_of_v, ubig_nonneg, ibig_consts }
 
 impl IBig {
